@@ -1,0 +1,2 @@
+//! verif::unicode — guarded hooks (cfg rustybuzz_verif).
+#![allow(unused_imports)]
